@@ -255,7 +255,7 @@ func minimise(s *Scenario, test func(*Scenario) bool, maxTests int, deadline tim
 			}
 		}
 		for i := 0; i < len(get(cur).Tape) && tests < maxTests; i++ {
-			if get(cur).Tape[i] == '0' {
+			if get(cur).Tape[i] == '0' || get(cur).Tape[i] == 'P' {
 				c := cur.clone()
 				w := get(c)
 				w.Tape = w.Tape[:i] + "1" + w.Tape[i+1:]
